@@ -274,6 +274,9 @@ func genC06(r *kit.Rand, tier kit.Tier) C06Case {
 	return c
 }
 
+// cutBeforeStart stands for "save before the engine has run".
+const cutBeforeStart = ^uint64(0)
+
 func execC06(c C06Case, env *kit.Env) kit.Outcome {
 	var out kit.Outcome
 
@@ -323,12 +326,19 @@ func execC06(c C06Case, env *kit.Env) kit.Outcome {
 		}
 	}
 
+	// besides the time boundaries: a checkpoint of the simulation as built, before
+	// the engine has run at all (the first events are pending for the engine's own
+	// current time)
+	if len(c.Cuts) == 0 {
+		cuts = append([]uint64{cutBeforeStart}, cuts...)
+	}
+
 	inflightCuts := 0
 
 	for _, t := range cuts {
 		// suffix of the reference trace after t
 		k := 0
-		for k < len(ref.times) && ref.times[k] <= t {
+		for t != cutBeforeStart && k < len(ref.times) && ref.times[k] <= t {
 			k++
 		}
 
@@ -337,7 +347,9 @@ func execC06(c C06Case, env *kit.Env) kit.Outcome {
 		}
 
 		a := c.build(env, true)
-		a.guarded(func() { _ = a.eng.RunUntil(timing.VTimeInPicoSec(t)) })
+		if t != cutBeforeStart {
+			a.guarded(func() { _ = a.eng.RunUntil(timing.VTimeInPicoSec(t)) })
+		}
 
 		ckpt := filepath.Join(env.Scratch, "cut.akitackpt")
 		if err := a.sim.SaveCheckpoint(ckpt, buildID); err != nil {
